@@ -7,6 +7,7 @@ import SymfcModel.Lemmas.PermSound
 import SymfcModel.Lemmas.OrbitClosed
 import SymfcModel.Lemmas.Col0
 import SymfcModel.Lemmas.Order3
+import SymfcModel.Lemmas.Components
 namespace Symfc.C01
 open Symfc
 
@@ -157,5 +158,22 @@ theorem C01_components_closed_under_index_permutations (c : Cell) (hwf : c.wf = 
   · exact (C01_order2 c hwf cut hcut nBatch ptr' h _ _).mpr ⟨r, hr, hmem, hclosed⟩
   · exact (C01_order3 c hwf cut hcut nBatch ptr' h _ _).mpr ⟨r, hr, hmem, hclosed⟩
   · exact ((C01_order4 c hwf cut hcut nBatch ptr' h).1 _ _).mpr ⟨r, hr, hmem, hclosed⟩
+
+/-- C01, executable end: the label array computed by the model's `componentLabels` (the function the correspondence
+    harness compares with scipy's `connected_components` partition of `c_pt`) decides `SameComp`: two covered elements
+    get the same label iff they are in the same component — for the pointer array of every order, cell, cutoff,
+    representative rule and batch split. Together with `C01_order{2,3,4}`: equal label ⇔ common row ⇔ same S_n×T orbit. -/
+theorem labels_decide_components (c : Cell) (hwf : c.wf = true) (n : Nat) (hn : n = 2 ∨ n = 3 ∨ n = 4)
+    (cut : Option CutoffIn) (hcut : ∀ x, cut = some x → x.N = c.N) (nBatch : String → Nat) (ptr' : Array Int)
+    (h : permDecompr Gen.cutoffOps c n (repFor n) (stagesFor n) cut nBatch = some ptr')
+    (a b : Nat) (ha : covered ptr' a) (hb : covered ptr' b) :
+    (componentLabels ptr').getD a (-1) = (componentLabels ptr').getD b (-1) ↔
+      ∃ r ∈ allStageRows Gen.cutoffOps c n (stagesFor n) cut, a ∈ r ∧ b ∈ r := by
+  have hlt := OC.allStageRows_lt c hwf hn cut hcut
+  rw [permDecompr_componentLabels_iff h hlt ha hb]
+  rcases hn with rfl | rfl | rfl
+  · exact C01_order2 c hwf cut hcut nBatch ptr' h a b
+  · exact C01_order3 c hwf cut hcut nBatch ptr' h a b
+  · exact (C01_order4 c hwf cut hcut nBatch ptr' h).1 a b
 
 end Symfc.C01
